@@ -76,3 +76,12 @@ claim('C02',
       'predicate that makes assemblies adiabatic. Does not decide discrete conservation across unequal meshes (C10) nor run-time adjacency symmetry (C09).',
       'Trusted: ast/CFG; recognised source forms in dsa/rules/c02.py.',
       'DESIGN.md 4 C02')
+claim('C19',
+      'table agreement + interval (sign) abstract interpretation of the straight-line hot-spot formula + def-use wiring (ast)',
+      'Static conformance to the structural necessary conditions of C19 in DESIGN 4.19: the location list, subfactor column counts, schema options and profile-slice table agree and the '
+      'number of temperature rises equals the number of subfactor terms for all six locations; interval abstract interpretation of calculate_temps proves, under dT >= 0, direct >= 1, '
+      'statistical >= 1, IN_sigma > 0, OUT_sigma >= 0, that the result is the cumulative nominal part times a factor >= 1 plus an increment >= 0 that is linear in OUT_sigma/IN_sigma and '
+      'exactly zero (factor exactly one) when all subfactors are one; reductions run along the right axes; the rises come from the profile stored with the peak of the same key. '
+      'Does not decide numerical values nor eval() of dT-dependent subfactor expressions.',
+      'Trusted: the NumPy models of dsa/interval.py (unknown constructs evaluate to TOP and can only lose a proof); stated input assumptions.',
+      'DESIGN.md 4 C19')
